@@ -85,3 +85,60 @@ Proof. reflexivity. Qed.
 Lemma gen_wiring_Strand_table_proportion_stderrs :
   wsrc_Strand_table_proportion_stderrs = Some (w_vector_of "table_proportion_stderrs").
 Proof. reflexivity. Qed.
+
+(* SecondOrderMeasures.column_proportion_variances *)
+Lemma gen_wiring_SecondOrderMeasures_column_proportion_variances :
+  wsrc_SecondOrderMeasures_column_proportion_variances = Some (WCall (WGlobal "_ProportionVariances")
+      [WSelf "_dimensions"; WVar "self"; WSelf "_cube_measures"; WAttr (WSelf "column_proportions")
+      "blocks"; WAttr (WSelf "column_weighted_bases") "blocks"] []).
+Proof. reflexivity. Qed.
+
+(* SecondOrderMeasures.column_std_err *)
+Lemma gen_wiring_SecondOrderMeasures_column_std_err :
+  wsrc_SecondOrderMeasures_column_std_err = Some (WCall (WGlobal "_ColumnStandardError") [WSelf
+      "_dimensions"; WVar "self"; WSelf "_cube_measures"] []).
+Proof. reflexivity. Qed.
+
+(* SecondOrderMeasures.row_proportion_variances *)
+Lemma gen_wiring_SecondOrderMeasures_row_proportion_variances :
+  wsrc_SecondOrderMeasures_row_proportion_variances = Some (WCall (WGlobal "_ProportionVariances")
+      [WSelf "_dimensions"; WVar "self"; WSelf "_cube_measures"; WAttr (WSelf "row_proportions")
+      "blocks"; WAttr (WSelf "row_weighted_bases") "blocks"] []).
+Proof. reflexivity. Qed.
+
+(* SecondOrderMeasures.row_std_err *)
+Lemma gen_wiring_SecondOrderMeasures_row_std_err :
+  wsrc_SecondOrderMeasures_row_std_err = Some (WCall (WGlobal "_RowStandardError") [WSelf
+      "_dimensions"; WVar "self"; WSelf "_cube_measures"] []).
+Proof. reflexivity. Qed.
+
+(* SecondOrderMeasures.table_proportion_variances *)
+Lemma gen_wiring_SecondOrderMeasures_table_proportion_variances :
+  wsrc_SecondOrderMeasures_table_proportion_variances = Some (WCall (WGlobal "_ProportionVariances")
+      [WSelf "_dimensions"; WVar "self"; WSelf "_cube_measures"; WAttr (WSelf "table_proportions")
+      "blocks"; WAttr (WSelf "table_weighted_bases") "blocks"] []).
+Proof. reflexivity. Qed.
+
+(* SecondOrderMeasures.table_std_err *)
+Lemma gen_wiring_SecondOrderMeasures_table_std_err :
+  wsrc_SecondOrderMeasures_table_std_err = Some (WCall (WGlobal "_TableStandardError") [WSelf
+      "_dimensions"; WVar "self"; WSelf "_cube_measures"] []).
+Proof. reflexivity. Qed.
+
+(* StripeMeasures.table_proportion_stddevs *)
+Lemma gen_wiring_StripeMeasures_table_proportion_stddevs :
+  wsrc_StripeMeasures_table_proportion_stddevs = Some (WCall (WGlobal "_TableProportionStddevs")
+      [WSelf "_rows_dimension"; WVar "self"; WSelf "_cube_measures"] []).
+Proof. reflexivity. Qed.
+
+(* StripeMeasures.table_proportion_stderrs *)
+Lemma gen_wiring_StripeMeasures_table_proportion_stderrs :
+  wsrc_StripeMeasures_table_proportion_stderrs = Some (WCall (WGlobal "_TableProportionStderrs")
+      [WSelf "_rows_dimension"; WVar "self"; WSelf "_cube_measures"] []).
+Proof. reflexivity. Qed.
+
+(* StripeMeasures.table_proportion_variances *)
+Lemma gen_wiring_StripeMeasures_table_proportion_variances :
+  wsrc_StripeMeasures_table_proportion_variances = Some (WCall (WGlobal "_TableProportionVariances")
+      [WSelf "_rows_dimension"; WVar "self"; WSelf "_cube_measures"] []).
+Proof. reflexivity. Qed.
